@@ -2,6 +2,7 @@
 package main
 
 import (
+	"encoding/json"
 	"fmt"
 	"math"
 	"reflect"
@@ -11,6 +12,9 @@ import (
 	"github.com/robertkrimen/otto"
 	. "ottoh/lib"
 )
+
+func jsonUnmarshal(s string, into interface{}) error { return json.Unmarshal([]byte(s), into) }
+func jsonMarshal(x interface{}) ([]byte, error)        { return json.Marshal(x) }
 
 func main() {
 	env := FromFlags("c15")
@@ -219,16 +223,16 @@ func (g gscalar) literal() string {
 		}
 		return "false"
 	case "float32":
-		return JSNum(float64(g.f32))
+		return jsNumF(float64(g.f32))
 	case "float64":
-		return JSNum(g.f64)
+		return jsNumF(g.f64)
 	case "string":
 		return jsStrLit(g.s)
 	}
 	if isSigned(g.kind) {
-		return JSNum(float64(g.i))
+		return jsNumF(float64(g.i))
 	}
-	return JSNum(float64(g.u))
+	return jsNumF(float64(g.u))
 }
 
 // JS string literal of valid UTF-8 text: BMP characters escaped, astral characters raw
@@ -250,15 +254,27 @@ func jsStrLit(s string) string {
 	return b.String()
 }
 
+// literal of a double whose evaluation has a float64 payload: otto keeps an integer literal as an
+// int64, whose String() shows the exact digits beyond 2^53 (C06/C15-wide-int-text), so it cannot be
+// the oracle for the text of the double
+func jsNumF(f float64) string {
+	s := JSNum(f)
+	if strings.ContainsAny(s, ".eNI(") {
+		return s
+	}
+	return s + ".0"
+}
+
 func (g gscalar) isNumber() bool {
 	return g.kind != "nil" && g.kind != "bool" && g.kind != "string"
 }
 
 // ---------- generators ----------
 type gen struct {
-	env *Env
-	vm  *otto.Otto
-	idf otto.Value
+	env  *Env
+	vm   *otto.Otto
+	idf  otto.Value
+	sunk otto.Value
 }
 
 func (g *gen) intValue(kind string) gscalar {
@@ -659,6 +675,21 @@ func (g *gen) inject(path int, s gscalar) (v otto.Value, ok bool, how string) {
 	return v, ok, how
 }
 
+// doubles just below 1e21 and just below 1e-6: otto's String() takes the wrong notation there
+// (finding C06-tostring), so it cannot serve as the oracle for the JSON text
+func c06Window(s gscalar) bool {
+	var f float64
+	switch s.kind {
+	case "float64":
+		f = math.Abs(s.f64)
+	case "float32":
+		f = math.Abs(float64(s.f32))
+	default:
+		return false
+	}
+	return (f >= 1e21*(1-1e-9) && f < 1e21) || (f >= 1e-6*(1-1e-9) && f < 1e-6)
+}
+
 func smallPlain(s gscalar) bool {
 	switch s.kind {
 	case "nil", "bool":
@@ -765,7 +796,7 @@ func (g *gen) scalarCases(path int, s gscalar, simple bool) {
 			fmt.Sprintf("%s: ToString() -> %q err=%v panic=%v; String(%s) = %q", head, t, err, p, lit, ostr), "tostring", nontriv)
 	}
 	// MarshalJSON against the in-language JSON.stringify(LIT); strings: the text must parse back to the string
-	if validText && !refl32 {
+	if validText && !refl32 && !c06Window(s) {
 		ojson := ""
 		if s.isNumber() {
 			// 15.12.3: a finite number is serialised as ToString(number)
@@ -808,11 +839,19 @@ func (g *gen) scalarCases(path int, s gscalar, simple bool) {
 
 func runC15(env *Env) {
 	env.Import = "Otto.C15.Corr"
-	env.Rule = "Go scalars of every kind and width (boundary integers per width, around 2^53/2^63/2^64, all float classes as bit patterns, float32 incl. subnormals, numeric/UTF-8/invalid strings, nil) injected along 10 paths (Set, named type, pointer, ToValue, Object.Set, call argument, struct field, slice element, map value) and read back by Export/ToFloat/ToInteger/ToBoolean/ToString/MarshalJSON/predicates and by scripts; non-trivial = distinct case whose path is not plain Otto.Set or whose value is not a small integer, bool, nil or lower-case word"
+	env.Rule = "Go scalars of every kind and width (boundary integers per width, around 2^53/2^63/2^64, all float classes as bit patterns, float32 incl. subnormals, numeric/UTF-8/invalid strings, nil) injected along 10 paths (Set, named type, pointer, ToValue, Object.Set, call argument, struct field, slice element, map value) and read back by Export/ToFloat/ToInteger/ToBoolean/ToString/MarshalJSON/predicates and by scripts; script data trees (depth <= 4: homogeneous/mixed/nested arrays, holes, undefined, objects; via Run, JSON.parse, global+Get, Go-function argument) and arrays after push/pop/length/delete/index histories through Export; JavaScript values of the conversion boundary set (primitives, wrappers, objects with valueOf/toString incl. throwing) through the Value predicates and To* against in-language typeof/Number/String/Boolean/isNaN; Value.Call/Object.Call/Otto.Call (with and without this, error paths) against the in-language call; write/delete/read histories of global and object bindings through Go and script; Go containers (typed/nil/empty slices, maps, arrays, structs, pointers, nesting) seen by a script walk, Export (DeepEqual) and MarshalJSON. Non-trivial = distinct case that is not a plain Otto.Set of a small integer, bool, nil or lower-case word (all tree, call, history, container cases and js values of type number/string/object count)"
 	g := &gen{env: env, vm: otto.New()}
 	idf, err := g.vm.Run(`(function(a){ return a })`)
 	Must(err)
 	g.idf = idf
+	_, err = g.vm.Run(callPrelude)
+	Must(err)
+	_, err = g.vm.Run(describePrelude)
+	Must(err)
+	Must(g.vm.Set("sink", func(call otto.FunctionCall) otto.Value {
+		g.sunk = call.Argument(0)
+		return otto.UndefinedValue()
+	}))
 	r := env.Rng
 
 	// pinned witnesses of the listed findings run first
@@ -823,7 +862,35 @@ func runC15(env *Env) {
 	g.scalarCases(0, gscalar{kind: "float64", f64: math.NaN()}, true)
 	g.scalarCases(0, gscalar{kind: "float64", f64: math.Inf(-1)}, true)
 
+	lit := func(i int64) *jnode { return &jnode{t: "int", ik: "int64", i: i} }
+	arr := func(e ...*jnode) *jnode { return &jnode{t: "arr", elems: e} }
+	g.treeCase(arr(arr(arr(lit(1))), arr(arr(&jnode{t: "float", f: 1.5}))), 0)
+	g.treeCase(arr(arr(arr()), arr(arr(lit(1)))), 0)
+	g.treeCase(arr(lit(1), &jnode{t: "hole"}, lit(2)), 0)
+
+	g.jsValueCase(`({valueOf:function(){throw new TypeError("t")}})`)
+
 	for env.Count() < env.N {
+		switch k := r.Intn(20); {
+		case k < 4:
+			g.randomTreeCase()
+			continue
+		case k < 6:
+			g.histCase()
+			continue
+		case k < 8:
+			g.jsValueCase("")
+			continue
+		case k < 10:
+			g.callCase()
+			continue
+		case k < 11:
+			g.historyCase()
+			continue
+		case k < 13:
+			g.containerCase()
+			continue
+		}
 		s, simple := g.scalar()
 		path := 0
 		switch k := r.Intn(10); {
@@ -839,4 +906,1220 @@ func runC15(env *Env) {
 		}
 		g.scalarCases(path, s, simple)
 	}
+}
+
+// ====================== Export of script data ======================
+
+type jnode struct {
+	t     string // "undef","null","bool","int","float","str","arr","obj","hole"
+	b     bool
+	ik    string // payload kind of an integer-valued number: int64 (literal), int32 (n|0), uint32 (n>>>0), int ("..".length)
+	i     int64
+	f     float64
+	s     string
+	elems []*jnode
+	keys  []string
+}
+
+func (n *jnode) coq(allFloat bool) string {
+	switch n.t {
+	case "undef":
+		return "JUndef"
+	case "null":
+		return "JNull"
+	case "bool":
+		return "(JBool " + Cbool(n.b) + ")"
+	case "int":
+		if allFloat {
+			return "(JNumF " + Cdouble(float64(n.i)) + ")"
+		}
+		return fmt.Sprintf("(JNumI %s %s)", coqKind[n.ik], Cz(n.i))
+	case "float":
+		return "(JNumF " + Cdouble(n.f) + ")"
+	case "str":
+		return "(JStr " + cbytes(n.s) + ")"
+	case "arr":
+		items := make([]string, len(n.elems))
+		for i, e := range n.elems {
+			if e.t == "hole" {
+				items[i] = "None"
+			} else {
+				items[i] = "(Some " + e.coq(allFloat) + ")"
+			}
+		}
+		return "(JArr " + Clist(items) + ")"
+	case "obj":
+		items := make([]string, len(n.elems))
+		for i, e := range n.elems {
+			items[i] = "(" + cbytes(n.keys[i]) + ", " + e.coq(allFloat) + ")"
+		}
+		return "(JObj " + Clist(items) + ")"
+	}
+	panic("jnode " + n.t)
+}
+
+// JS source text whose evaluation gives the node with the modelled payload types
+func (n *jnode) js() string {
+	switch n.t {
+	case "undef":
+		return "undefined"
+	case "null":
+		return "null"
+	case "bool":
+		if n.b {
+			return "true"
+		}
+		return "false"
+	case "int":
+		switch n.ik {
+		case "int64":
+			return fmt.Sprintf("%d", n.i)
+		case "int32":
+			return fmt.Sprintf("(%d|0)", n.i)
+		case "uint32":
+			return fmt.Sprintf("(%d>>>0)", n.i)
+		default:
+			return `"` + strings.Repeat("a", int(n.i)) + `".length`
+		}
+	case "float":
+		f := n.f
+		if f == math.Trunc(f) && f >= 0 && f < 1e15 && !(f == 0 && math.Signbit(f)) {
+			return fmt.Sprintf("%d.0", int64(f))
+		}
+		return JSNum(f)
+	case "str":
+		return jsStrLit(n.s)
+	case "arr":
+		var b strings.Builder
+		b.WriteByte('[')
+		for i, e := range n.elems {
+			if i > 0 {
+				b.WriteByte(',')
+			}
+			if e.t != "hole" {
+				b.WriteString(e.js())
+			}
+		}
+		if len(n.elems) > 0 && n.elems[len(n.elems)-1].t == "hole" {
+			b.WriteByte(',')
+		}
+		b.WriteByte(']')
+		return b.String()
+	case "obj":
+		var b strings.Builder
+		b.WriteString("({")
+		for i, e := range n.elems {
+			if i > 0 {
+				b.WriteByte(',')
+			}
+			b.WriteString(jsStrLit(n.keys[i]) + ":" + e.js())
+		}
+		b.WriteString("})")
+		return b.String()
+	}
+	panic("jnode " + n.t)
+}
+
+func (n *jnode) jsonLike() bool {
+	switch n.t {
+	case "undef", "hole":
+		return false
+	case "float":
+		return !math.IsNaN(n.f) && !math.IsInf(n.f, 0)
+	case "arr", "obj":
+		for _, e := range n.elems {
+			if !e.jsonLike() {
+				return false
+			}
+		}
+	}
+	return true
+}
+
+// JSON text of JSON-like data
+func (n *jnode) json() string {
+	switch n.t {
+	case "null":
+		return "null"
+	case "bool":
+		return n.js()
+	case "int":
+		return fmt.Sprintf("%d", n.i)
+	case "float":
+		if n.f == 0 && math.Signbit(n.f) {
+			return "-0"
+		}
+		return fmt.Sprintf("%.17g", n.f)
+	case "str":
+		return jsStrLit(n.s)
+	case "arr":
+		parts := make([]string, len(n.elems))
+		for i, e := range n.elems {
+			parts[i] = e.json()
+		}
+		return "[" + strings.Join(parts, ",") + "]"
+	case "obj":
+		parts := make([]string, len(n.elems))
+		for i, e := range n.elems {
+			parts[i] = jsStrLit(n.keys[i]) + ":" + e.json()
+		}
+		return "{" + strings.Join(parts, ",") + "}"
+	}
+	panic("json " + n.t)
+}
+
+func (n *jnode) depth() int {
+	d := 0
+	for _, e := range n.elems {
+		if k := e.depth(); k > d {
+			d = k
+		}
+	}
+	if n.t == "arr" || n.t == "obj" {
+		return d + 1
+	}
+	return 0
+}
+
+func (g *gen) leaf(kind string) *jnode {
+	r := g.env.Rng
+	switch kind {
+	case "int":
+		ik := Pick(r, []string{"int64", "int64", "int64", "int64", "int32", "uint32", "int"})
+		switch ik {
+		case "int64":
+			return &jnode{t: "int", ik: ik, i: Pick(r, []int64{0, 1, 2, 7, 255, 1 << 31, 1<<32 + 1, 1 << 53, 1<<53 + 1, math.MaxInt64, int64(r.Intn(1000)), r.Int63()})}
+		case "int32":
+			return &jnode{t: "int", ik: ik, i: Pick(r, []int64{0, 1, -1, 5, math.MaxInt32, math.MinInt32, int64(int32(r.Uint32()))})}
+		case "uint32":
+			return &jnode{t: "int", ik: ik, i: Pick(r, []int64{0, 1, 5, math.MaxUint32, 1 << 31, int64(r.Uint32())})}
+		default:
+			return &jnode{t: "int", ik: ik, i: int64(r.Intn(6))}
+		}
+	case "float":
+		return &jnode{t: "float", f: Pick(r, []float64{0.5, 1.5, -1, -2.5, 0, math.Copysign(0, -1), 5, 1e21, 1e-7, 0.1, -7, math.NaN(), math.Inf(1), math.Inf(-1), 9223372036854775808, float64(r.Intn(100)) + 0.25, r.NormFloat64()})}
+	case "str":
+		return &jnode{t: "str", s: Pick(r, []string{"", "a", "b", "abc", "1", "é", "\U00010000", "x y", "\"q\"", "null"})}
+	case "bool":
+		return &jnode{t: "bool", b: r.Intn(2) == 0}
+	case "null":
+		return &jnode{t: "null"}
+	case "undef":
+		return &jnode{t: "undef"}
+	}
+	panic(kind)
+}
+
+var leafKinds = []string{"int", "int", "float", "str", "bool", "null", "undef"}
+var keyPool = []string{"", "0", "1", "10", "A", "a", "b", "c", "k y", "key", "z", "é"}
+
+func (g *gen) keys(n int) []string {
+	r := g.env.Rng
+	chosen := map[string]bool{}
+	for len(chosen) < n {
+		chosen[Pick(r, keyPool)] = true
+	}
+	ks := make([]string, 0, n)
+	for _, k := range keyPool { // keyPool is in ascending byte order
+		if chosen[k] {
+			ks = append(ks, k)
+		}
+	}
+	return ks
+}
+
+// a tree of the given shape family; `leaf` fixes the leaf kind of homogeneous parts
+func (g *gen) tree(depth int) *jnode {
+	r := g.env.Rng
+	if depth <= 0 {
+		return g.leaf(Pick(r, leafKinds))
+	}
+	switch r.Intn(10) {
+	case 0, 1: // homogeneous array of one leaf kind
+		k := Pick(r, []string{"int", "float", "str", "bool", "null"})
+		n := r.Intn(4)
+		a := &jnode{t: "arr"}
+		for i := 0; i < n; i++ {
+			e := g.leaf(k)
+			if k == "int" {
+				e.ik = "int64"
+				if e.i < 0 {
+					e.i = -e.i
+				}
+				if e.i < 0 {
+					e.i = 0
+				}
+			}
+			a.elems = append(a.elems, e)
+		}
+		return a
+	case 2, 3, 4: // array of subtrees of the same shape family (this is where kind triples agree and types may not)
+		n := r.Intn(3) + 1
+		a := &jnode{t: "arr"}
+		for i := 0; i < n; i++ {
+			a.elems = append(a.elems, g.tree(depth-1))
+		}
+		return a
+	case 5: // array with holes and undefined
+		n := r.Intn(4) + 1
+		a := &jnode{t: "arr"}
+		for i := 0; i < n; i++ {
+			switch r.Intn(4) {
+			case 0:
+				a.elems = append(a.elems, &jnode{t: "hole"})
+			default:
+				a.elems = append(a.elems, g.tree(depth-1))
+			}
+		}
+		return a
+	case 6, 7: // object
+		ks := g.keys(r.Intn(4))
+		o := &jnode{t: "obj", keys: ks}
+		for range ks {
+			o.elems = append(o.elems, g.tree(depth-1))
+		}
+		return o
+	case 8: // mixed array of leaves
+		n := r.Intn(4) + 1
+		a := &jnode{t: "arr"}
+		for i := 0; i < n; i++ {
+			a.elems = append(a.elems, g.leaf(Pick(r, leafKinds)))
+		}
+		return a
+	default:
+		return g.leaf(Pick(r, leafKinds))
+	}
+}
+
+// nested arrays of equal depth whose innermost leaf kinds are chosen per branch: the family on which
+// the kind triples of the elements agree at the outer level
+func (g *gen) nestedUniform(depth int, leafKind string) *jnode {
+	r := g.env.Rng
+	if depth == 0 {
+		e := g.leaf(leafKind)
+		if leafKind == "int" {
+			e.ik = "int64"
+			if e.i < 0 {
+				e.i = 0
+			}
+		}
+		return e
+	}
+	n := r.Intn(3)
+	if depth > 1 || r.Intn(4) > 0 {
+		n++
+	}
+	a := &jnode{t: "arr"}
+	for i := 0; i < n; i++ {
+		a.elems = append(a.elems, g.nestedUniform(depth-1, leafKind))
+	}
+	return a
+}
+
+func gtyOf(t reflect.Type) (string, bool) {
+	switch t.Kind() {
+	case reflect.Bool:
+		return "TBool", true
+	case reflect.Int, reflect.Int8, reflect.Int16, reflect.Int32, reflect.Int64, reflect.Uint, reflect.Uint8, reflect.Uint16, reflect.Uint32, reflect.Uint64:
+		return "(TInt " + coqKind[t.Kind().String()] + ")", true
+	case reflect.Float64:
+		return "TF64", true
+	case reflect.String:
+		return "TStr", true
+	case reflect.Interface:
+		if t.NumMethod() == 0 {
+			return "TIface", true
+		}
+	case reflect.Slice:
+		e, ok := gtyOf(t.Elem())
+		return "(TSlice " + e + ")", ok
+	case reflect.Map:
+		if t.Key().Kind() == reflect.String && t.Elem().Kind() == reflect.Interface && t.Elem().NumMethod() == 0 {
+			return "TMap", true
+		}
+	}
+	return "", false
+}
+
+// Coq term (gv) of an exported Go value
+func gvOf(x interface{}) string {
+	if x == nil {
+		return "XNil"
+	}
+	v := reflect.ValueOf(x)
+	switch v.Kind() {
+	case reflect.Bool:
+		return "(XBool " + Cbool(v.Bool()) + ")"
+	case reflect.Int, reflect.Int8, reflect.Int16, reflect.Int32, reflect.Int64:
+		return fmt.Sprintf("(XInt %s %s)", coqKind[v.Kind().String()], Cz(v.Int()))
+	case reflect.Uint, reflect.Uint8, reflect.Uint16, reflect.Uint32, reflect.Uint64:
+		return fmt.Sprintf("(XInt %s %s)", coqKind[v.Kind().String()], Czu(v.Uint()))
+	case reflect.Float64:
+		return "(XF64 " + Cdouble(v.Float()) + ")"
+	case reflect.String:
+		return "(XStr " + cbytes(v.String()) + ")"
+	case reflect.Slice:
+		e, ok := gtyOf(v.Type().Elem())
+		if !ok || v.IsNil() {
+			return "XOther"
+		}
+		items := make([]string, v.Len())
+		for i := range items {
+			items[i] = gvOf(v.Index(i).Interface())
+		}
+		return "(XSlice " + e + " " + Clist(items) + ")"
+	case reflect.Map:
+		if _, ok := gtyOf(v.Type()); !ok || v.IsNil() {
+			return "XOther"
+		}
+		ks := make([]string, 0, v.Len())
+		for _, k := range v.MapKeys() {
+			ks = append(ks, k.String())
+		}
+		sortStrings(ks)
+		items := make([]string, len(ks))
+		for i, k := range ks {
+			items[i] = "(" + cbytes(k) + ", " + gvOf(v.MapIndex(reflect.ValueOf(k)).Interface()) + ")"
+		}
+		return "(XMap " + Clist(items) + ")"
+	}
+	return "XOther"
+}
+
+func sortStrings(a []string) {
+	for i := 1; i < len(a); i++ {
+		for j := i; j > 0 && a[j] < a[j-1]; j-- {
+			a[j], a[j-1] = a[j-1], a[j]
+		}
+	}
+}
+
+// evaluate the source along `via`, Export, and give the observation as an `ob gv` term plus a printable form
+func (g *gen) exportOb(via int, src string) (string, string) {
+	var v otto.Value
+	var err error
+	p := guard(func() {
+		switch via {
+		case 0, 1:
+			v, err = g.vm.Run(src)
+		case 2:
+			if _, err = g.vm.Run("exported = " + src); err == nil {
+				v, err = g.vm.Get("exported")
+			}
+		case 3:
+			g.sunk = otto.Value{}
+			if _, err = g.vm.Run("sink(" + src + ")"); err == nil {
+				v = g.sunk
+			}
+		}
+	})
+	if p {
+		return "OPanic", "panic while evaluating"
+	}
+	if err != nil {
+		return fmt.Sprintf("(OErr %d)", errClassOf(err)), "error " + err.Error()
+	}
+	var x interface{}
+	var perr interface{}
+	func() {
+		defer func() { perr = recover() }()
+		x, _ = v.Export()
+	}()
+	if perr != nil {
+		return "OPanic", fmt.Sprintf("Go panic: %v", perr)
+	}
+	return "(OVal " + gvOf(x) + ")", fmt.Sprintf("%#v", x)
+}
+
+var viaNames = []string{"Run", "JSON.parse", "global + Otto.Get", "argument of a Go function"}
+
+func (g *gen) treeCase(n *jnode, via int) {
+	src := "(" + n.js() + ")"
+	allFloat := false
+	if via == 1 {
+		src = "JSON.parse(" + jsStrLit(n.json()) + ")"
+		allFloat = true
+	}
+	ob, shown := g.exportOb(via, src)
+	g.env.Add(fmt.Sprintf("CExportTree %d %s %s", via, n.coq(allFloat), ob),
+		fmt.Sprintf("export via %s: %s -> %s", viaNames[via], src, shown), "export-tree", n.depth() >= 1)
+}
+
+func (g *gen) randomTreeCase() {
+	r := g.env.Rng
+	var n *jnode
+	switch r.Intn(5) {
+	case 0, 1: // uniform nesting, leaf kinds differing between branches
+		d := r.Intn(3) + 1
+		k := r.Intn(3) + 1
+		n = &jnode{t: "arr"}
+		for i := 0; i < k; i++ {
+			n.elems = append(n.elems, g.nestedUniform(d, Pick(r, []string{"int", "int", "float", "str", "bool", "null"})))
+		}
+	default:
+		n = g.tree(r.Intn(4) + 1)
+	}
+	via := Pick(r, []int{0, 0, 0, 2, 3})
+	if n.jsonLike() && r.Intn(4) == 0 {
+		via = 1
+	}
+	g.treeCase(n, via)
+}
+
+func (g *gen) histCase() {
+	r := g.env.Rng
+	k := Pick(r, []string{"int", "int", "float", "str", "mixed"})
+	pickLeaf := func() *jnode {
+		kk := k
+		if kk == "mixed" {
+			kk = Pick(r, leafKinds)
+		}
+		e := g.leaf(kk)
+		if kk == "int" && k != "mixed" {
+			e.ik = "int64"
+			if e.i < 0 {
+				e.i = 0
+			}
+		}
+		if r.Intn(8) == 0 {
+			return &jnode{t: "arr", elems: []*jnode{e}}
+		}
+		return e
+	}
+	init := &jnode{t: "arr"}
+	for i := r.Intn(4); i > 0; i-- {
+		init.elems = append(init.elems, pickLeaf())
+	}
+	var src strings.Builder
+	fmt.Fprintf(&src, "(function(){ var a = %s; ", init.js())
+	nops := r.Intn(5) + 1
+	ops := make([]string, nops)
+	for i := range ops {
+		switch r.Intn(6) {
+		case 0, 1:
+			e := pickLeaf()
+			fmt.Fprintf(&src, "a.push(%s); ", e.js())
+			ops[i] = "APush " + e.coq(false)
+		case 2:
+			src.WriteString("a.pop(); ")
+			ops[i] = "APop"
+		case 3:
+			n := r.Intn(7)
+			fmt.Fprintf(&src, "a.length = %d; ", n)
+			ops[i] = fmt.Sprintf("ASetLen %d", n)
+		case 4:
+			n := r.Intn(6)
+			fmt.Fprintf(&src, "delete a[%d]; ", n)
+			ops[i] = fmt.Sprintf("ADelete %d", n)
+		default:
+			n := r.Intn(8)
+			e := pickLeaf()
+			fmt.Fprintf(&src, "a[%d] = %s; ", n, e.js())
+			ops[i] = fmt.Sprintf("ASetIdx %d %s", n, e.coq(false))
+		}
+	}
+	src.WriteString("return a })()")
+	ob, shown := g.exportOb(0, src.String())
+	initItems := make([]string, len(init.elems))
+	for i, e := range init.elems {
+		initItems[i] = "(Some " + e.coq(false) + ")"
+	}
+	g.env.Add(fmt.Sprintf("CExportHist %s %s %s", Clist(initItems), Clist(ops), ob),
+		fmt.Sprintf("export after history: %s -> %s", src.String(), shown), "export-history", true)
+}
+
+// ====================== JavaScript values through the Go API ======================
+
+var jsValueExprs = []string{
+	`undefined`, `null`, `true`, `false`, `0`, `-0`, `1`, `-1`, `NaN`, `Infinity`, `-Infinity`, `0.5`, `-0.5`, `1.5`, `2147483647`, `2147483648`, `-2147483649`, `4294967295`, `4294967296`,
+	`9007199254740991`, `9007199254740992`, `9007199254740993.0`, `9223372036854775807.0`, `9223372036854775808`, `-9223372036854775808`, `-9223372036854777856`, `18446744073709551616`, `1e21`, `1e-7`, `5e-324`,
+	`1.7976931348623157e308`, `1e400`, `(5|0)`, `(5>>>0)`, `"abc".length`, `1/3`,
+	`""`, `" "`, `"0"`, `"-0"`, `"1"`, `" 42 "`, `"0x10"`, `"1e3"`, `"1.5"`, `".5"`, `"abc"`, `"NaN"`, `"Infinity"`, `"-Infinity"`, `"12abc"`, `"é"`, `"true"`, `"null"`, `"9007199254740993"`, `"1e400"`,
+	`({})`, `[]`, `[5]`, `[1,2]`, `["7"]`, `[[]]`, `[null]`, `[undefined]`, `(function(){})`, `(function f(a,b){ return a+b })`, `Math.max`, `new Number(5)`, `new Number(NaN)`, `new Number(-0)`, `new String("")`, `new String("12")`,
+	`new Boolean(false)`, `new Boolean(true)`, `new Date(0)`, `new Date(NaN)`, `/x/g`, `new Error("m")`, `new TypeError("t")`, `Math`, `JSON`, `Object.create(null)`, `Object.create({valueOf:function(){return 3}})`,
+	`({valueOf:function(){return 42}})`, `({valueOf:function(){return "17"}})`, `({toString:function(){return "7"}})`, `({valueOf:function(){return {}}, toString:function(){return "3"}})`,
+	`({valueOf:function(){return {}}, toString:function(){return {}}})`, `({valueOf:function(){throw new TypeError("t")}})`, `({toString:function(){throw new RangeError("r")}})`,
+	`({valueOf:function(){throw 1}})`, `({toString:function(){throw "s"}, valueOf:function(){return 1}})`, `({valueOf:function(){return NaN}})`, `({valueOf:function(){return -0}})`,
+	`({valueOf:function(){return 1e400}, toString:function(){return "x"}})`, `({valueOf:function(){return true}})`, `({valueOf:function(){return null}})`, `({valueOf:function(){return undefined}})`,
+	`arguments = 5`, `this`, `[1.5]`, `[-0]`, `["a","b"]`, `new Array(3)`, `[,1]`,
+}
+
+func (g *gen) jsValueCase(pinned string) {
+	r := g.env.Rng
+	expr := pinned
+	k := r.Intn(6)
+	if pinned != "" {
+		k = -1
+	}
+	switch k {
+	case -1:
+	case 0: // a random number
+		expr = jsNumF(g.float64Value())
+	case 1: // a random numeric-looking string
+		s := g.stringValue()
+		if !utf8.ValidString(s) {
+			s = "x"
+		}
+		expr = jsStrLit(s)
+	case 2: // an object converting to a random primitive
+		expr = fmt.Sprintf("({valueOf:function(){return %s}, toString:function(){return %s}})", jsNumF(g.float64Value()), jsStrLit(Pick(r, numericTexts)))
+	default:
+		expr = Pick(r, jsValueExprs)
+	}
+	o := RunJS(g.vm, "v = ("+expr+")")
+	if o.Panic != nil || o.Err != nil {
+		g.env.Add("CCallErr 9 0 1", fmt.Sprintf("js value %s could not be evaluated: %v %v", expr, o.Err, o.Panic), "jsvalue-failed", true)
+		return
+	}
+	v := o.Val
+	ty := g.jsText(`v === null ? "null" : typeof v`)
+	tyn, ok := map[string]int{"undefined": 0, "null": 1, "boolean": 2, "number": 3, "string": 4, "object": 5, "function": 6}[ty]
+	if !ok {
+		tyn = 99
+	}
+	projBits := func(x otto.Value) string { f, _ := x.ToFloat(); return Cdouble(f) }
+	jnum := g.jsOb("Number(v)", projBits)
+	jstr := g.jsOb("String(v)", func(x otto.Value) string { return cbytes(x.String()) })
+	jbool := g.jsOb("Boolean(v)", projBool)
+	jisnan := g.jsOb("isNaN(v)", projBool)
+
+	preds := []string{}
+	guard(func() {
+		for _, b := range []bool{v.IsDefined(), v.IsUndefined(), v.IsNull(), v.IsPrimitive(), v.IsBoolean(), v.IsNumber(), v.IsString(), v.IsObject(), v.IsFunction(), v.Class() == ""} {
+			preds = append(preds, Cbool(b))
+		}
+	})
+	var gnanB bool
+	p := guard(func() { gnanB = v.IsNaN() })
+	gnan := obOf(p, nil, Cbool(gnanB))
+	var f float64
+	var err error
+	p = guard(func() { f, err = v.ToFloat() })
+	gnum := obOf(p, err, Cdouble(f))
+	var i int64
+	p = guard(func() { i, err = v.ToInteger() })
+	gint := obOf(p, err, Cz(i))
+	var s string
+	p = guard(func() { s, err = v.ToString() })
+	gstr := obOf(p, err, cbytes(s))
+	var b bool
+	p = guard(func() { b, err = v.ToBoolean() })
+	gbool := obOf(p, err, Cbool(b))
+	g.env.Add(fmt.Sprintf("CJsVal %d %s %s %s %s %s %s %s %s %s %s", tyn, jnum, jstr, jbool, jisnan, Clist(preds), gnan, gnum, gint, gstr, gbool),
+		fmt.Sprintf("js value v = %s: in-language typeof %s Number %s String %s Boolean %s isNaN %s; Go predicates %v IsNaN %s ToFloat %s ToInteger %s ToString %s ToBoolean %s",
+			expr, ty, jnum, jstr, jbool, jisnan, preds, gnan, gnum, gint, gstr, gbool), "js-value", tyn >= 3)
+}
+
+// ====================== API calls against in-language calls ======================
+
+const callPrelude = `
+var G = this;
+function thisTag(t) { return t === G ? "G" : t === undefined ? "U" : t === null ? "N" : (typeof t) + ":" + String(t) }
+function probe() {
+	var r = [thisTag(this), String(arguments.length)];
+	for (var i = 0; i < arguments.length; i++) { r.push(typeof arguments[i]); r.push(String(arguments[i])) }
+	return r.join("\u0001")
+}
+var holder = { probe: probe, toString: function(){ return "HOLDER" }, thrower: function(){ throw new RangeError("r") }, notfn: 5 };
+function thrower() { throw new TypeError("t") }
+function thrower2() { throw 7 }
+function thrower3() { undefinedName.x }
+function Ctor(a) { this.a = a }
+var store = {};
+`
+
+// descriptor string -> Coq list (list Z)
+func descTerm(s string) string {
+	parts := strings.Split(s, "\x01")
+	if len(parts) < 2 {
+		return "[]"
+	}
+	items := []string{Cstr(parts[0]), "[" + parts[1] + "]"}
+	for i := 2; i+1 < len(parts); i += 2 {
+		n, ok := typeofEnum[parts[i]]
+		if !ok {
+			n = 99
+		}
+		u := Units(parts[i+1])
+		z := make([]string, 0, len(u)+1)
+		z = append(z, fmt.Sprintf("%d", n))
+		for _, c := range u {
+			z = append(z, fmt.Sprintf("%d", c))
+		}
+		items = append(items, Clist(z))
+	}
+	return Clist(items)
+}
+
+func callOb(v otto.Value, err error, panicked bool) string {
+	if panicked {
+		return "OPanic"
+	}
+	if err != nil {
+		return fmt.Sprintf("(OErr %d)", errClassOf(err))
+	}
+	return "(OVal " + descTerm(v.String()) + ")"
+}
+
+// scalars whose String() in a script is computable by the model without an oracle
+func (g *gen) callArg() gscalar {
+	r := g.env.Rng
+	switch r.Intn(8) {
+	case 0:
+		return gscalar{kind: "nil"}
+	case 1:
+		return gscalar{kind: "bool", b: r.Intn(2) == 0}
+	case 2:
+		return gscalar{kind: "string", s: Pick(r, []string{"", "a", "hello", "1", " x ", "null", "undefined", "0x10"})}
+	case 3:
+		return gscalar{kind: "float64", f64: Pick(r, []float64{0, math.Copysign(0, -1), 1, -1, 5, 1 << 52, -(1 << 52), math.NaN(), math.Inf(1), math.Inf(-1), float64(r.Intn(100000))})}
+	default:
+		s := g.intValue(Pick(r, intKinds))
+		if isSigned(s.kind) {
+			if s.i > 1<<53 || s.i < -(1<<53) {
+				s.i >>= 12
+			}
+		} else if s.u > 1<<53 {
+			s.u >>= 12
+		}
+		return s
+	}
+}
+
+func (g *gen) callCase() {
+	r := g.env.Rng
+	vm := g.vm
+	if r.Intn(6) == 0 { // error paths
+		type ec struct {
+			api  int
+			call func() (otto.Value, error)
+			lang string
+			txt  string
+		}
+		get := func(n string) otto.Value { v, _ := vm.Get(n); return v }
+		holder := get("holder").Object()
+		cands := []ec{
+			{0, func() (otto.Value, error) { return get("thrower").Call(otto.UndefinedValue()) }, `thrower.call(undefined)`, "Value.Call(thrower)"},
+			{0, func() (otto.Value, error) { return get("thrower2").Call(otto.NullValue(), 1) }, `thrower2.call(null, 1)`, "Value.Call(thrower2)"},
+			{0, func() (otto.Value, error) { return get("thrower3").Call(otto.UndefinedValue()) }, `thrower3.call(undefined)`, "Value.Call(thrower3)"},
+			{0, func() (otto.Value, error) { return get("holder").Call(otto.UndefinedValue()) }, `holder.call(undefined)`, "Value.Call(holder) (not a function)"},
+			{0, func() (otto.Value, error) { v, _ := vm.ToValue(5); return v.Call(otto.UndefinedValue()) }, `(5).call(undefined)`, "Value.Call(5) (not a function)"},
+			{1, func() (otto.Value, error) { return holder.Call("thrower") }, `holder.thrower()`, "Object.Call(thrower)"},
+			{1, func() (otto.Value, error) { return holder.Call("notfn") }, `holder.notfn()`, "Object.Call(notfn)"},
+			{1, func() (otto.Value, error) { return holder.Call("missing", 1) }, `holder.missing(1)`, "Object.Call(missing)"},
+			{2, func() (otto.Value, error) { return vm.Call("thrower", "T") }, `thrower.call("T")`, "Otto.Call(thrower, this)"},
+			{3, func() (otto.Value, error) { return vm.Call("thrower", nil) }, `thrower()`, "Otto.Call(thrower)"},
+			{3, func() (otto.Value, error) { return vm.Call("thrower2", nil, 1, 2) }, `thrower2(1,2)`, "Otto.Call(thrower2)"},
+			{3, func() (otto.Value, error) { return vm.Call("holder.thrower", nil) }, `holder.thrower()`, "Otto.Call(holder.thrower)"},
+			{3, func() (otto.Value, error) { return vm.Call("noSuchFunction", nil) }, `noSuchFunction()`, "Otto.Call(noSuchFunction)"},
+			{3, func() (otto.Value, error) { return vm.Call("holder.notfn", nil) }, `holder.notfn()`, "Otto.Call(holder.notfn)"},
+			{2, func() (otto.Value, error) { return vm.Call("holder.notfn", 1) }, `holder.notfn.call(1)`, "Otto.Call(holder.notfn, this)"},
+			{3, func() (otto.Value, error) { return vm.Call("new thrower", nil) }, `new thrower()`, "Otto.Call(new thrower)"},
+		}
+		c := Pick(r, cands)
+		var err error
+		p := guard(func() { _, err = c.call() })
+		ca := errClassOf(err)
+		if p {
+			ca = 9
+		}
+		cl := ErrClass(RunJS(vm, c.lang))
+		g.env.Add(fmt.Sprintf("CCallErr %d %d %d", c.api, ca, cl), fmt.Sprintf("call error: %s -> class %d (%v); in-language %s -> class %d", c.txt, ca, err, c.lang, cl), "call-error", true)
+		return
+	}
+	n := r.Intn(5)
+	args := make([]gscalar, n)
+	goArgs := make([]interface{}, n)
+	lits := make([]string, n)
+	coqs := make([]string, n)
+	txts := make([]string, n)
+	for i := range args {
+		args[i] = g.callArg()
+		goArgs[i] = args[i].plain()
+		lits[i] = args[i].literal()
+		coqs[i] = args[i].coq()
+		txts[i] = args[i].text()
+	}
+	api := r.Intn(4)
+	var v otto.Value
+	var err error
+	var lang, txt string
+	argl := strings.Join(lits, ", ")
+	probe, _ := vm.Get("probe")
+	thisChoices := []struct {
+		lit string
+		val func() interface{}
+	}{
+		{"undefined", func() interface{} { return otto.UndefinedValue() }},
+		{"null", func() interface{} { return otto.NullValue() }},
+		{`"str"`, func() interface{} { return "str" }},
+		{"7", func() interface{} { return 7 }},
+		{"true", func() interface{} { return true }},
+		{"holder", func() interface{} { h, _ := vm.Get("holder"); return h }},
+	}
+	p := false
+	switch api {
+	case 0:
+		t := Pick(r, thisChoices)
+		tv, _ := vm.ToValue(t.val())
+		p = guard(func() { v, err = probe.Call(tv, goArgs...) })
+		lang = "probe.call(" + strings.Join(append([]string{t.lit}, lits...), ", ") + ")"
+		txt = "Value.Call(this=" + t.lit + ")"
+	case 1:
+		h, _ := vm.Get("holder")
+		p = guard(func() { v, err = h.Object().Call("probe", goArgs...) })
+		lang = "holder.probe(" + argl + ")"
+		txt = "Object.Call(\"probe\")"
+	case 2:
+		t := Pick(r, thisChoices[2:])
+		p = guard(func() { v, err = vm.Call("probe", t.val(), goArgs...) })
+		lang = "probe.call(" + strings.Join(append([]string{t.lit}, lits...), ", ") + ")"
+		txt = "Otto.Call(\"probe\", this=" + t.lit + ")"
+	default:
+		src := Pick(r, []string{"probe", "holder.probe", "(function(){ return probe })()", "holder['probe']"})
+		p = guard(func() { v, err = vm.Call(src, nil, goArgs...) })
+		lang = src + "(" + argl + ")"
+		txt = "Otto.Call(" + src + ", nil)"
+	}
+	obsAPI := callOb(v, err, p)
+	o := RunJS(vm, lang)
+	obsLang := callOb(o.Val, o.Err, o.Panic != nil)
+	g.env.Add(fmt.Sprintf("CCall %d %s %s %s", api, Clist(coqs), obsAPI, obsLang),
+		fmt.Sprintf("call %s args [%s] -> %q err=%v; in-language %s -> %q err=%v", txt, strings.Join(txts, ", "), v.String(), err, lang, o.Val.String(), o.Err), "call", true)
+}
+
+// ====================== histories of writes and reads ======================
+
+func cvOf(v otto.Value) string {
+	switch {
+	case v.IsUndefined():
+		return "CVUndef"
+	case v.IsNull():
+		return "CVNull"
+	case v.IsBoolean():
+		b, _ := v.ToBoolean()
+		return "(CVBool " + Cbool(b) + ")"
+	case v.IsNumber():
+		f := math.NaN()
+		if guard(func() { f, _ = v.ToFloat() }) {
+			return "CVOther"
+		}
+		return "(CVNum " + Cdouble(f) + ")"
+	case v.IsString():
+		s, _ := v.ToString()
+		return "(CVStr " + cbytes(s) + ")"
+	}
+	return "CVOther"
+}
+
+func (g *gen) historyCase() {
+	r := g.env.Rng
+	vm := g.vm
+	names := []string{"h0", "h1", "h2"}
+	// fresh bindings for every history
+	RunJS(vm, "store = {}; try { delete h0 } catch (e) {}; try { delete h1 } catch (e) {}; try { delete h2 } catch (e) {}; h0 = undefined; h1 = undefined; h2 = undefined; delete h0; delete h1; delete h2;")
+	storeObj := func() *otto.Object { v, _ := vm.Get("store"); return v.Object() }
+	nops := r.Intn(8) + 2
+	var ops, obs, txt []string
+	for i := 0; i < nops; i++ {
+		store := r.Intn(2)
+		name := r.Intn(len(names))
+		ref := names[name]
+		if store == 1 {
+			ref = "store." + names[name]
+		}
+		switch k := r.Intn(10); {
+		case k < 4: // write
+			s, _ := g.scalar()
+			if s.kind == "string" && !utf8.ValidString(s.s) {
+				s = gscalar{kind: "string", s: "v"}
+			}
+			via := r.Intn(2)
+			if via == 0 {
+				var err error
+				if store == 0 {
+					err = vm.Set(names[name], s.plain())
+				} else {
+					err = storeObj().Set(names[name], s.plain())
+				}
+				txt = append(txt, fmt.Sprintf("Go set %s = %s (err %v)", ref, s.text(), err))
+			} else {
+				o := RunJS(vm, ref+" = "+s.literal())
+				txt = append(txt, fmt.Sprintf("script %s = %s (err %v)", ref, s.literal(), o.Err))
+			}
+			ops = append(ops, fmt.Sprintf("HSet %d %d %d %s", store, via, name, s.coq()))
+		case k < 5: // delete
+			o := RunJS(vm, "delete "+ref)
+			txt = append(txt, fmt.Sprintf("script delete %s (err %v)", ref, o.Err))
+			ops = append(ops, fmt.Sprintf("HDel %d %d", store, name))
+		default: // read
+			via := r.Intn(2)
+			var v otto.Value
+			var err error
+			if via == 0 {
+				if store == 0 {
+					v, err = vm.Get(names[name])
+				} else {
+					v, err = storeObj().Get(names[name])
+				}
+			} else {
+				o := RunJS(vm, "typeof "+names[name]+" === 'undefined' && "+fmt.Sprint(store == 0)+" ? undefined : "+ref)
+				v, err = o.Val, o.Err
+			}
+			c := cvOf(v)
+			if err != nil {
+				c = "CVOther"
+			}
+			obs = append(obs, c)
+			txt = append(txt, fmt.Sprintf("%s read %s -> %s", []string{"Go", "script"}[via], ref, c))
+			ops = append(ops, fmt.Sprintf("HGet %d %d %d", store, via, name))
+		}
+	}
+	g.env.Add(fmt.Sprintf("CHistory %s %s", Clist(ops), Clist(obs)), "history: "+strings.Join(txt, "; "), "history", true)
+}
+
+// ====================== Go containers seen by scripts ======================
+
+const describePrelude = `
+function describe(v) {
+	if (v === undefined) return {t:"u"};
+	if (v === null) return {t:"n"};
+	if (typeof v === "boolean") return {t:"b", v:v};
+	if (typeof v === "number") return {t:"d", v:(v !== v) ? "NaN" : (v === 0 && 1/v < 0) ? "-0" : String(v)};
+	if (typeof v === "string") return {t:"s", v:v};
+	if (typeof v === "function") return {t:"f"};
+	if (Array.isArray(v)) { var a = []; for (var i = 0; i < v.length; i++) a.push((i in v) ? describe(v[i]) : {t:"h"}); return {t:"a", v:a} }
+	var ks = Object.keys(v).sort(), o = [];
+	for (var j = 0; j < ks.length; j++) o.push(describe(v[ks[j]]));
+	return {t:"o", k:ks, v:o};
+}
+`
+
+type S2 struct {
+	X uint64
+	Y bool
+}
+
+type S1 struct {
+	A int8
+	B string
+	c int
+	D []uint16
+	E map[string]float32
+	F *S2
+	G S2
+	H interface{}
+	I [2]int32
+}
+
+type gtnode struct {
+	coq string
+	val interface{}
+}
+
+func (g *gen) containerScalar(kind string) gscalar {
+	r := g.env.Rng
+	switch kind {
+	case "bool":
+		return gscalar{kind: kind, b: r.Intn(2) == 0}
+	case "string":
+		s := g.stringValue()
+		if !utf8.ValidString(s) {
+			s = "é"
+		}
+		return gscalar{kind: kind, s: s}
+	case "float64":
+		f := g.float64Value()
+		if f != f {
+			f = -0.0
+		}
+		return gscalar{kind: kind, f64: f}
+	case "float32":
+		f, _ := g.float32Value()
+		if f != f {
+			f = 0.5
+		}
+		return gscalar{kind: kind, f32: f}
+	case "nil":
+		return gscalar{kind: "nil"}
+	}
+	return g.intValue(kind)
+}
+
+var scalarKinds = []string{"bool", "int", "int8", "int16", "int32", "int64", "uint", "uint8", "uint16", "uint32", "uint64", "float32", "float64", "string"}
+
+// a random Go container (depth-bounded) with its Coq description
+func (g *gen) container(depth int) gtnode {
+	r := g.env.Rng
+	k := r.Intn(9)
+	if depth <= 0 {
+		k = r.Intn(3)
+	}
+	switch k {
+	case 0, 1: // typed slice of scalars (nil, empty, or filled)
+		kind := Pick(r, scalarKinds)
+		t := reflect.TypeOf(g.containerScalar(kind).plain())
+		switch r.Intn(6) {
+		case 0:
+			return gtnode{"(GTSlice true [])", reflect.Zero(reflect.SliceOf(t)).Interface()}
+		}
+		n := r.Intn(4)
+		sl := reflect.MakeSlice(reflect.SliceOf(t), n, n)
+		items := make([]string, n)
+		for i := 0; i < n; i++ {
+			s := g.containerScalar(kind)
+			sl.Index(i).Set(reflect.ValueOf(s.plain()))
+			items[i] = "(GTScalar " + s.coq() + ")"
+		}
+		return gtnode{"(GTSlice false " + Clist(items) + ")", sl.Interface()}
+	case 2: // typed map of scalars
+		kind := Pick(r, scalarKinds)
+		t := reflect.TypeOf(g.containerScalar(kind).plain())
+		mt := reflect.MapOf(reflect.TypeOf(""), t)
+		if r.Intn(6) == 0 {
+			return gtnode{"(GTMap true [])", reflect.Zero(mt).Interface()}
+		}
+		m := reflect.MakeMap(mt)
+		ks := g.keys(r.Intn(4))
+		items := make([]string, len(ks))
+		for i, key := range ks {
+			s := g.containerScalar(kind)
+			m.SetMapIndex(reflect.ValueOf(key), reflect.ValueOf(s.plain()))
+			items[i] = "(" + cbytes(key) + ", GTScalar " + s.coq() + ")"
+		}
+		return gtnode{"(GTMap false " + Clist(items) + ")", m.Interface()}
+	case 3: // []interface{} of anything
+		n := r.Intn(4)
+		sl := make([]interface{}, n)
+		items := make([]string, n)
+		for i := range sl {
+			c := g.element(depth - 1)
+			sl[i] = c.val
+			items[i] = c.coq
+		}
+		return gtnode{"(GTSlice false " + Clist(items) + ")", sl}
+	case 4: // map[string]interface{} of anything
+		ks := g.keys(r.Intn(4))
+		m := map[string]interface{}{}
+		items := make([]string, len(ks))
+		for i, key := range ks {
+			c := g.element(depth - 1)
+			m[key] = c.val
+			items[i] = "(" + cbytes(key) + ", " + c.coq + ")"
+		}
+		return gtnode{"(GTMap false " + Clist(items) + ")", m}
+	case 5: // slice of slices / slice of maps (typed)
+		n := r.Intn(3)
+		inner := make([]gtnode, n)
+		kind := Pick(r, scalarKinds)
+		t := reflect.SliceOf(reflect.TypeOf(g.containerScalar(kind).plain()))
+		sl := reflect.MakeSlice(reflect.SliceOf(t), n, n)
+		items := make([]string, n)
+		for i := range inner {
+			m := r.Intn(3)
+			row := reflect.MakeSlice(t, m, m)
+			cells := make([]string, m)
+			for j := 0; j < m; j++ {
+				s := g.containerScalar(kind)
+				row.Index(j).Set(reflect.ValueOf(s.plain()))
+				cells[j] = "(GTScalar " + s.coq() + ")"
+			}
+			sl.Index(i).Set(row)
+			items[i] = "(GTSlice false " + Clist(cells) + ")"
+		}
+		return gtnode{"(GTSlice false " + Clist(items) + ")", sl.Interface()}
+	case 6: // fixed-size array
+		kind := Pick(r, scalarKinds)
+		t := reflect.TypeOf(g.containerScalar(kind).plain())
+		n := r.Intn(3) + 1
+		arr := reflect.New(reflect.ArrayOf(n, t)).Elem()
+		items := make([]string, n)
+		for i := 0; i < n; i++ {
+			s := g.containerScalar(kind)
+			arr.Index(i).Set(reflect.ValueOf(s.plain()))
+			items[i] = "(GTScalar " + s.coq() + ")"
+		}
+		return gtnode{"(GTArray " + Clist(items) + ")", arr.Interface()}
+	default: // struct, by value or behind a pointer
+		a := g.containerScalar("int8")
+		b := g.containerScalar("string")
+		x := g.containerScalar("uint64")
+		y := g.containerScalar("bool")
+		s := S1{A: int8(a.i), B: b.s, c: r.Intn(9), G: S2{X: x.u, Y: y.b}}
+		fields := []string{
+			"([65], true, GTScalar " + a.coq() + ")",
+			"([66], true, GTScalar " + b.coq() + ")",
+			fmt.Sprintf("([99], false, GTScalar (GInt KInt %d))", s.c),
+		}
+		// D []uint16
+		if r.Intn(3) == 0 {
+			fields = append(fields, "([68], true, GTSlice true [])")
+		} else {
+			n := r.Intn(3)
+			cells := make([]string, n)
+			for i := 0; i < n; i++ {
+				e := g.containerScalar("uint16")
+				s.D = append(s.D, uint16(e.u))
+				cells[i] = "(GTScalar " + e.coq() + ")"
+			}
+			if s.D == nil {
+				s.D = []uint16{}
+			}
+			fields = append(fields, "([68], true, GTSlice false "+Clist(cells)+")")
+		}
+		// E map[string]float32
+		if r.Intn(3) == 0 {
+			fields = append(fields, "([69], true, GTMap true [])")
+		} else {
+			s.E = map[string]float32{}
+			ks := g.keys(r.Intn(3))
+			cells := make([]string, len(ks))
+			for i, key := range ks {
+				e := g.containerScalar("float32")
+				s.E[key] = e.f32
+				cells[i] = "(" + cbytes(key) + ", GTScalar " + e.coq() + ")"
+			}
+			fields = append(fields, "([69], true, GTMap false "+Clist(cells)+")")
+		}
+		// F *S2
+		if r.Intn(2) == 0 {
+			fields = append(fields, "([70], true, GTNilPtr)")
+		} else {
+			fx := g.containerScalar("uint64")
+			s.F = &S2{X: fx.u, Y: true}
+			fields = append(fields, "([70], true, GTStruct [([88], true, GTScalar "+fx.coq()+"); ([89], true, GTScalar (GBool true))])")
+		}
+		fields = append(fields, "([71], true, GTStruct [([88], true, GTScalar "+x.coq()+"); ([89], true, GTScalar "+y.coq()+")])")
+		// H interface{}
+		h := g.element(0)
+		s.H = h.val
+		fields = append(fields, "([72], true, "+h.coq+")")
+		// I [2]int32
+		i0, i1 := g.containerScalar("int32"), g.containerScalar("int32")
+		s.I = [2]int32{int32(i0.i), int32(i1.i)}
+		fields = append(fields, "([73], true, GTArray [GTScalar "+i0.coq()+"; GTScalar "+i1.coq()+"])")
+		term := "(GTStruct " + Clist(fields) + ")"
+		if r.Intn(2) == 0 {
+			return gtnode{term, &s}
+		}
+		return gtnode{term, s}
+	}
+}
+
+// an element of an interface{} container: a scalar of any kind, nil, or a nested container
+func (g *gen) element(depth int) gtnode {
+	r := g.env.Rng
+	if depth > 0 && r.Intn(3) == 0 {
+		return g.container(depth)
+	}
+	kind := Pick(r, append([]string{"nil"}, scalarKinds...))
+	s := g.containerScalar(kind)
+	return gtnode{"(GTScalar " + s.coq() + ")", s.plain()}
+}
+
+// the tagged tree produced by describe(), as a jv term
+func jvOfDescribed(x interface{}) string {
+	m, ok := x.(map[string]interface{})
+	if !ok {
+		return "JNull"
+	}
+	switch m["t"] {
+	case "u":
+		return "JUndef"
+	case "n":
+		return "JNull"
+	case "b":
+		b, _ := m["v"].(bool)
+		return "(JBool " + Cbool(b) + ")"
+	case "d":
+		txt, _ := m["v"].(string)
+		var f float64
+		switch txt {
+		case "NaN":
+			f = math.NaN()
+		case "Infinity":
+			f = math.Inf(1)
+		case "-Infinity":
+			f = math.Inf(-1)
+		case "-0":
+			f = math.Copysign(0, -1)
+		default:
+			if _, err := fmt.Sscanf(txt, "%g", &f); err != nil {
+				return "(JStr " + cbytes("unparsable number "+txt) + ")"
+			}
+		}
+		return "(JNumF " + Cdouble(f) + ")"
+	case "s":
+		s, _ := m["v"].(string)
+		return "(JStr " + cbytes(s) + ")"
+	case "a":
+		l, _ := m["v"].([]interface{})
+		items := make([]string, len(l))
+		for i, e := range l {
+			if em, ok := e.(map[string]interface{}); ok && em["t"] == "h" {
+				items[i] = "None"
+			} else {
+				items[i] = "(Some " + jvOfDescribed(e) + ")"
+			}
+		}
+		return "(JArr " + Clist(items) + ")"
+	case "o":
+		ks, _ := m["k"].([]interface{})
+		vs, _ := m["v"].([]interface{})
+		items := make([]string, 0, len(ks))
+		for i := range ks {
+			k, _ := ks[i].(string)
+			if i < len(vs) {
+				items = append(items, "("+cbytes(k)+", "+jvOfDescribed(vs[i])+")")
+			}
+		}
+		return "(JObj " + Clist(items) + ")"
+	}
+	return "(JStr " + cbytes(fmt.Sprintf("unexpected tag %v", m["t"])) + ")"
+}
+
+func (g *gen) containerCase() {
+	c := g.container(3)
+	vm := g.vm
+	var setErr error
+	if guard(func() { setErr = vm.Set("cont", c.val) }) || setErr != nil {
+		g.env.Add(fmt.Sprintf("CContainer %s OPanic OPanic OPanic", c.coq), fmt.Sprintf("container %#v could not be set: %v", c.val, setErr), "container", true)
+		return
+	}
+	view := "OPanic"
+	o := RunJS(vm, "JSON.stringify(describe(cont))")
+	if o.Panic == nil {
+		if o.Err != nil {
+			view = fmt.Sprintf("(OErr %d)", ErrClass(o))
+		} else {
+			var parsed interface{}
+			if err := jsonUnmarshal(o.Val.String(), &parsed); err != nil {
+				view = "(OErr 8)"
+			} else {
+				view = "(OVal " + jvOfDescribed(parsed) + ")"
+			}
+		}
+	}
+	same, js := "OPanic", "OPanic"
+	var v otto.Value
+	if !guard(func() {
+		var err error
+		v, err = vm.Get("cont")
+		if err != nil {
+			panic(err)
+		}
+	}) {
+		var x interface{}
+		if !guard(func() { x, _ = v.Export() }) {
+			same = "(OVal " + Cbool(reflect.DeepEqual(x, c.val)) + ")"
+		}
+		var bs []byte
+		var err error
+		if !guard(func() { bs, err = v.MarshalJSON() }) {
+			want, werr := jsonMarshal(c.val)
+			js = "(OVal " + Cbool((err == nil) == (werr == nil) && string(bs) == string(want)) + ")"
+		}
+	}
+	g.env.Add(fmt.Sprintf("CContainer %s %s %s %s", c.coq, view, same, js),
+		fmt.Sprintf("container %#v: script view (describe) %s; Export DeepEqual %s; MarshalJSON equals encoding/json %s", c.val, o.Val.String(), same, js), "container", true)
 }
